@@ -19,6 +19,13 @@ fn usage() -> ! {
 }
 
 fn main() {
+    // Panics of the code under test are caught and judged by the monitors; keep stderr quiet.
+    std::panic::set_hook(Box::new(|info| {
+        let own = info.location().map(|l| l.file().starts_with("src/")).unwrap_or(false);
+        if own || std::env::var_os("BVH_SHOW_PANICS").is_some() {
+            eprintln!("{}", info);
+        }
+    }));
     let args: Vec<String> = std::env::args().collect();
     if args.len() < 3 {
         usage();
@@ -44,6 +51,7 @@ fn main() {
             "C03" => checks::c03::replay(&v),
             "C10" => checks::c10::replay(&v),
             "C12" => checks::c12::replay(&v),
+            "C13" => checks::c13::replay(&v),
             "C09" => checks::c09::replay(&v),
             "C11" => checks::c11::replay(&v),
             _ => {
@@ -64,6 +72,7 @@ fn main() {
         "C03" => checks::c03::run(tier, seed),
         "C10" => checks::c10::run(tier, seed),
         "C12" => checks::c12::run(tier, seed),
+        "C13" => checks::c13::run(tier, seed),
         "C09" => checks::c09::run(tier, seed),
         "C11" => checks::c11::run(tier, seed),
         _ => usage(),
